@@ -253,7 +253,7 @@ func GenVal(rng *rand.Rand, t *ref.Type, o GenOpt, pool map[string][]ref.Val) re
 		if want == 0 {
 			want = 1 + rng.Intn(5)
 		}
-		if len(p) < want {
+		if len(p) < want && pool["exhausted:"+key] == nil {
 			seen := map[string]bool{}
 			for _, v := range p {
 				seen[string(v.B)] = true
@@ -274,6 +274,10 @@ func GenVal(rng *rand.Rand, t *ref.Type, o GenOpt, pool map[string][]ref.Val) re
 				}
 			}
 			pool[key] = p
+			if len(p) < want {
+				// the element type has fewer values than asked for: do not try again on every row
+				pool["exhausted:"+key] = []ref.Val{{}}
+			}
 		}
 		return p[rng.Intn(len(p))]
 	}
